@@ -21,6 +21,19 @@ class SymLen:
         self.arr = arr
         self.n = n
 
+    @property
+    def T(self):
+        return SymLenT(self)
+
+
+class SymLenT:
+    """transposed symbolic-length result handed to a constructor fake (never inspected by the code under test)"""
+    def __init__(self, s):
+        self.s = s
+
+    def __iter__(self):
+        return iter([self])
+
 
 def _int_range(dt):
     if dt.kind == "b":
@@ -309,8 +322,12 @@ class A:
 
     def __getitem__(self, idx):
         if isinstance(idx, slice) and (is_sym(idx.start) or is_sym(idx.stop)):
-            if self.ndim != 1 or idx.step is not None:
-                raise Unsupported("symbolic slice of a 2-D array / with step")
+            if idx.step is not None:
+                raise Unsupported("symbolic slice with step")
+            if is_sym(idx.stop) and self.ndim == 2 and idx.start in (None, 0):
+                return SymLen(self, idx.stop)          # prefix of rows
+            if self.ndim != 1:
+                raise Unsupported("symbolic slice of a 2-D array")
             if is_sym(idx.stop):
                 if idx.start not in (None, 0):
                     raise Unsupported("symbolic stop with a start")
